@@ -135,6 +135,15 @@ CLAIMED['C16'] = _c(
     'starters may acquire it (outside the property).',
     'TLA+ decision table + protocol spec + TLC exhaustive/liveness; real-process replay of table rows; scheduler replay and exhaustive DFS of the token race; TLC trace validation', 'DESIGN.md §4 C16, §10.7', 'sidecar')
 
+CLAIMED['C05'] = _c(
+    'Faults.tla is relational over the call sequences RECORDED from the current tree (open, first Add, growth, rotation, Read, files removed while in use, upload.Run in modes on/local/none): TLC enumerates every single and pairwise fault plan '
+    '(call x errno) with the outcome class the documented failure semantics predict and checks eight sanity theorems; each plan is replayed through the fault hook on the instrumented real packages (no escaped panic, no memory fault, step '
+    'budget, predicted park/persist class, other counters unchanged as read by the independent decoder) and decided by TLC (FaultsTrace). Corrupt.tla enumerates the damage classes of a counter file at rest (header, truncation, limit, heads, '
+    'name lengths, links incl. cycles) with the expected class; each file is written and opened/incremented by the real code under a hang/panic/fault guard and judged by TLC (CorruptTrace).',
+    'Single and pairwise faults over four errnos; one goroutine; the exec of `go mod download` is not a fault point; class mismatches that do not endanger safety are divergence warnings; known finding F23 (a corrupt limit of 0 / below linked '
+    'records is accepted and later records overwrite existing ones).',
+    'TLA+ relational specs over recorded call sequences and corruption classes + TLC enumeration; fault-plan / corrupt-file replay into instrumented real code; TLC validation', 'DESIGN.md §4 C05, §10.7', 'faults')
+
 NOT_YET = 'check not built yet in this session (see DESIGN.md §8 build order); will be claimed when its TLA+ module and conformance harness exist'
 
 checks = []
